@@ -244,7 +244,7 @@ def run(P, rep, tier):
     rep.explanation = ('Effect system over the code generator: gen_expr/gen_stmt are abstractly interpreted once per node kind on an abstract '
                        'node obeying the typing relation; recursive calls are replaced by the contract being proved (machine stack 0, x87 +1 iff long double), '
                        'so the per-kind result composes by structural induction to all programs. %rsp and x87 motion of every emitted template is summed per path.')
-    rep.assumptions += ['children satisfy the contract (induction hypothesis)', 'typing relation of each kind as produced by add_type (R01.2)',
+    rep.assumptions += ['children satisfy the contract (induction hypothesis)', 'typing relation of each kind as produced by add_type (R01.2; conditional, comma, assignment, statement expression and call nodes: R20.11, R20.10)',
                         'instruction stack effects per Intel SDM for the mnemonics chibicc emits', 'ND_FUNCALL argument lists analysed separately (R20.3 call-site rule)']
     rep.rule('R20.1', 'every gen_expr arm: machine-stack effect 0 and x87 effect +1 iff the node is long double, assuming the same of its children', floor=60)
     rep.rule('R20.2', 'every gen_stmt arm: machine-stack effect 0 and x87 effect 0 (return: value left for the epilogue)', floor=12)
@@ -331,7 +331,7 @@ def _r_calls(cg, P, rep, tier):
     from ..lib_abi import Builder
     from .c06 import run_caller, run_return, ret_locs
     from ..x86 import Unknown
-    rep.rule('R20.5', 'call expressions: everything pushed for a call (arguments, alignment padding, long double slots) is released after it, and `depth` returns to its value before the call, for every argument class and stack parity; a result of class X87 (long double, or an aggregate that is one long double) is taken from %st(0) by the caller exactly when the callee left it there, also when the value of the call is discarded', floor=60)
+    rep.rule('R20.5', 'call expressions: everything pushed for a call (arguments, alignment padding, long double slots) is released after it, and `depth` returns to its value before the call, for every argument class (scalars, structs, unions, the empty aggregate) and stack parity, and never more than was pushed; a result of class X87 (long double, or an aggregate that is one long double) is taken from %st(0) by the caller exactly when the callee left it there, also when the value of the call is discarded', floor=60)
     B = Builder(P)
     where = '%s:%d' % (U, cg.cu.fn('push_args').line if cg.cu.fn('push_args') else 0)
     sigs = [[], ['int'], ['double'], ['ldouble'], ['s_ld'], ['s_l3'], ['long'] * 7, ['long'] * 8, ['double'] * 9, ['double'] * 10,
@@ -401,7 +401,7 @@ def r_typing_relation(P, rep):
     (node, operand, operand) stack classes must be a combination preset() explores."""
     from ..lib_types import Types, typed_leaf
     T = Types(P)
-    rep.rule('R20.11', 'the typing relation the per-kind effect rules assume (which operands share the node\'s long double / void / other class) is what add_type produces, for every pair of operand types of a conditional, comma and assignment expression', floor=100)
+    rep.rule('R20.11', 'the typing relation the per-kind effect rules assume (which operands share the node\'s long double / void / other class) is what add_type produces, for every pair of operand types of a conditional, comma and assignment expression and for statement expressions', floor=150)
     where = 'type.c:%d' % T.tu.fn('add_type').line
 
     def cls(it, t):
@@ -442,9 +442,12 @@ def r_typing_relation(P, rep):
                     return [n]
                 key = 'type.c:add_type:%s(%s,%s)' % (kind, a, b)
                 try:
-                    outs = [(c, o) for c, o in it.explore('add_type', mk) if o[0] == 'ret' and not any(e[0] == 'call' and e[1] == 'error_tok' for e in c.events)]
+                    allp = it.explore('add_type', mk)
                 except AnalysisBroken as e:
                     rep.undecided('R20.11', key, 'add_type is not explorable here: %s' % e, where=where); continue
+                outs = [(c, o) for c, o in allp if o[0] == 'ret' and not any(e[0] == 'call' and e[1] == 'error_tok' for e in c.events)]
+                if not allp:
+                    rep.undecided('R20.11', key, 'add_type has no path on this node', where=where); continue
                 if not outs:
                     continue            # rejected by add_type: no such node reaches the code generator
                 bad = None
@@ -467,6 +470,7 @@ def r_typing_relation(P, rep):
     for a in REL_TYPES:
         for b in (None, 'ldouble', 'int'):
             it = T.interp(opaque=['error_tok'])
+            it.rec_limit = 8          # node -> statement -> expression
 
             def mk(ctx, a=a, b=b):
                 it.ctx = ctx
@@ -484,9 +488,12 @@ def r_typing_relation(P, rep):
                 return [n]
             key = 'type.c:add_type:ND_STMT_EXPR(%s%s)' % ('' if b is None else b + ';', a)
             try:
-                outs = [(c, o) for c, o in it.explore('add_type', mk) if o[0] == 'ret' and not any(e[0] == 'call' and e[1] == 'error_tok' for e in c.events)]
+                allp = it.explore('add_type', mk)
             except AnalysisBroken as e:
                 rep.undecided('R20.11', key, 'add_type is not explorable here: %s' % e, where=where); continue
+            outs = [(c, o) for c, o in allp if o[0] == 'ret' and not any(e[0] == 'call' and e[1] == 'error_tok' for e in c.events)]
+            if not allp:
+                rep.undecided('R20.11', key, 'add_type has no path on this node', where=where); continue
             if not outs:
                 continue
             got = {cls(it, c.node.fields.get('ty')) for c, o in outs}
